@@ -702,15 +702,22 @@ class BrownianInterval(brownian_base.BaseBrownian, _Interval):
         piece_length = self._tree_dt * cache_size * 0.8
 
         def _set_points(interval):
-            start = interval._start
-            end = interval._end
-            if end - start > piece_length:
-                # With tol > 0 times live on a grid: stop once the interval cannot be halved on that grid.
-                midway = self._round((end + start) / 2)
-                if start < midway < end:
-                    interval._loc(start, midway)
-                    _set_points(interval._left_child)
-                    _set_points(interval._right_child)
+            # Walk the existing tree with an explicit stack (its shape depends on the queries made so far, so its depth
+            # is not logarithmic in general) and halve only leaves: intervals that already have children keep them.
+            stack = [interval]
+            while len(stack):
+                interval = stack.pop()
+                if interval._midway is None:
+                    start = interval._start
+                    end = interval._end
+                    if end - start > piece_length:
+                        # With tol > 0 times live on a grid: stop once the interval cannot be halved on that grid.
+                        midway = self._round((end + start) / 2)
+                        if start < midway < end:
+                            interval._loc(start, midway)
+                if interval._midway is not None:
+                    stack.append(interval._right_child)
+                    stack.append(interval._left_child)
 
         _set_points(self)
 
